@@ -745,7 +745,11 @@ func (m *Module) renderInjectors(p *Pkg) []world.File {
 		} else if len(p.Anon) > 0 {
 			anon = p.Anon[:1] // the same blank import in a second injector file: it must appear once in the output
 		}
-		head := "//go:build wireinject\n// +build wireinject\n\npackage " + p.Name + "\n\n" + m.importBlock(p.Idx, imports, []string{"github.com/google/wire"}, anon)
+		cgo := ""
+		if p.Cgo && file == 0 {
+			cgo = "/*\n#cgo LDFLAGS: -lm\n*/\nimport \"C\"\n\n"
+		}
+		head := "//go:build wireinject\n// +build wireinject\n\npackage " + p.Name + "\n\n" + cgo + m.importBlock(p.Idx, imports, []string{"github.com/google/wire"}, anon)
 		out = append(out, world.File{Path: p.Path + "/" + m.injectorFileName(p, file), Data: []byte(head + b.String())})
 	}
 	return out
